@@ -581,12 +581,14 @@ fn execute_write_count(db: &core::Db, cypher: &str, params: &Params) -> ApiResul
     let prepared = prepare(cypher).map_err(|e| ApiError::from_query_message(&e.to_string()))?;
     #[cfg(nervusdb_verif)]
     core::verif::point("capi.write.begin");
-    let snapshot = db.snapshot();
-    #[cfg(nervusdb_verif)]
-    core::verif::point("capi.write.snapshot");
+    // Take the writer lock first: the statement's read snapshot must not be older than
+    // the state its writes are applied to, or a concurrent commit is silently overwritten.
     let mut txn = db.begin_write();
     #[cfg(nervusdb_verif)]
     core::verif::point("capi.write.locked");
+    let snapshot = db.snapshot();
+    #[cfg(nervusdb_verif)]
+    core::verif::point("capi.write.snapshot");
     let (_rows, write_count) = prepared
         .execute_mixed(&snapshot, &mut txn, params)
         .map_err(|e| ApiError::from_query_message(&e.to_string()))?;
